@@ -543,6 +543,14 @@ class SimpleObjectMethod(DeserializationMethod):
         return self.constructor.construct(data)
 
 
+def add_invalid_field(invalid_fields: Optional[set], name: str) -> set:
+    if invalid_fields is None:
+        return {name}
+    else:
+        invalid_fields.add(name)
+        return invalid_fields
+
+
 def extend_errors(
     errors: Optional[List[ErrorMsg]], messages: Sequence[ErrorMsg]
 ) -> List[ErrorMsg]:
@@ -608,6 +616,8 @@ class ObjectMethod(DeserializationMethod):
         except ValidationError as err:
             errors = list(err.messages)
         field_errors: Optional[dict] = None
+        # errors are located by aliases, but validators dependencies are field names
+        invalid_fields: Optional[set] = None
         for field in self.fields:
             if field.alias in data:
                 fields_count += 1
@@ -616,16 +626,19 @@ class ObjectMethod(DeserializationMethod):
                 except ValidationError as err:
                     if field.required or not field.fall_back_on_default:
                         field_errors = set_child_error(field_errors, field.alias, err)
+                        invalid_fields = add_invalid_field(invalid_fields, field.name)
             elif field.required:
                 field_errors = set_child_error(
                     field_errors, field.alias, ValidationError(self.missing)
                 )
+                invalid_fields = add_invalid_field(invalid_fields, field.name)
             elif field.required_by is not None and not field.required_by.isdisjoint(
                 data
             ):
                 requiring = sorted(field.required_by & data.keys())
                 error = ValidationError([self.missing + f" (required by {requiring})"])
                 field_errors = set_child_error(field_errors, field.alias, error)
+                invalid_fields = add_invalid_field(invalid_fields, field.name)
         if self.aggregate_fields:
             remain = data.keys() - self.all_aliases
             for flattened_field in self.flattened_fields:
@@ -645,6 +658,9 @@ class ObjectMethod(DeserializationMethod):
                         field_errors = update_children_errors(
                             field_errors, err.children
                         )
+                        invalid_fields = add_invalid_field(
+                            invalid_fields, flattened_field.name
+                        )
             for pattern_field in self.pattern_fields:
                 matched: dict = {
                     key: data[key]
@@ -662,6 +678,9 @@ class ObjectMethod(DeserializationMethod):
                         field_errors = update_children_errors(
                             field_errors, err.children
                         )
+                        invalid_fields = add_invalid_field(
+                            invalid_fields, pattern_field.name
+                        )
             if self.additional_field is not None:
                 additional: dict = {key: data[key] for key in remain}
                 try:
@@ -673,6 +692,9 @@ class ObjectMethod(DeserializationMethod):
                         errors = extend_errors(errors, err.messages)
                         field_errors = update_children_errors(
                             field_errors, err.children
+                        )
+                        invalid_fields = add_invalid_field(
+                            invalid_fields, self.additional_field.name
                         )
             elif remain:
                 if not self.additional_properties:
@@ -701,7 +723,7 @@ class ObjectMethod(DeserializationMethod):
                 for name, default_factory in self.init_defaults:
                     if name in values:
                         init[name] = values[name]
-                    elif not field_errors or name not in field_errors:
+                    elif not invalid_fields or name not in invalid_fields:
                         assert default_factory is not None
                         init[name] = default_factory()
             aliases = values.keys()
@@ -711,16 +733,16 @@ class ObjectMethod(DeserializationMethod):
             ]
             if field_errors or errors:
                 error = ValidationError(errors or [], field_errors or {})
-                invalid_fields = self.post_init_modified
-                if field_errors:
-                    invalid_fields = invalid_fields | field_errors.keys()
+                not_validable = self.post_init_modified
+                if invalid_fields:
+                    not_validable = not_validable | invalid_fields
                 try:
                     validate(
                         ValidatorMock(self.constructor.cls, values),
                         [
                             v
                             for v in validators
-                            if v.dependencies.isdisjoint(invalid_fields)
+                            if v.dependencies.isdisjoint(not_validable)
                         ],
                         init,
                         aliaser=self.aliaser,
